@@ -38,7 +38,7 @@ type Pred struct {
 type TmplPart struct {
 	// Kind: lit | label | line | ts_nanos | ts_unix | ts_millis | upper | lower | ToUpper | ToLower |
 	// printf2 | default | trim | unix_of_label | fail_unixToTime | fail_regex | fail_field | fail_argtype |
-	// fail_argcount | fail_index (failures of the template engine itself) |
+	// fail_argcount | fail_index (failures of the template engine itself) | root_index ({{ index $ "a" }}) |
 	// alignLeft | alignRight (N characters) | replace (Text -> Text2) | trimPrefix | trimSuffix (Text) |
 	// b64enc | if_contains (Text) | regex_wrap | regex_wrap_literal | regex_count
 	Kind  string `json:"kind"`
